@@ -11,6 +11,7 @@ import (
 	"fmt"
 	"math/big"
 	"math/rand"
+	"strings"
 
 	"verifharness/client"
 	"verifharness/lnmodel"
@@ -634,10 +635,19 @@ func (s *Sim) NewMeltQuote(msat uint64) *MeltQ {
 	return mq
 }
 
+// spellInvoice: bech32 is case-insensitive as a whole, so the upper-case spelling of an invoice is the
+// same invoice (wallets show QR codes that way); every other own invoice is presented like that.
+func (s *Sim) spellInvoice(bolt11 string) string {
+	if s.Rng.Intn(2) == 0 {
+		return strings.ToUpper(bolt11)
+	}
+	return bolt11
+}
+
 // NewInternalMeltQuote requests a melt quote for the invoice of one of the mint's own mint quotes.
 func (s *Sim) NewInternalMeltQuote(mq *MintQ) *MeltQ {
 	inv := s.W.Invoice(mq.Hash)
-	q, err := s.E.RequestMeltQuote(inv.Bolt11, 0)
+	q, err := s.E.RequestMeltQuote(s.spellInvoice(inv.Bolt11), 0)
 	if err != nil {
 		s.logf("internal meltquote for %s refused: %v", mq.Id[:8], err)
 		s.done("meltquote-refused")
@@ -677,7 +687,7 @@ func (s *Sim) NewForgedInternalMeltQuote(mq *MintQ, msat uint64) *MeltQ {
 // NewInternalMppMeltQuote: MPP option on the mint's own invoice (must be refused).
 func (s *Sim) NewInternalMppMeltQuote(mq *MintQ, partMsat uint64) *MeltQ {
 	inv := s.W.Invoice(mq.Hash)
-	q, err := s.E.RequestMeltQuote(inv.Bolt11, partMsat)
+	q, err := s.E.RequestMeltQuote(s.spellInvoice(inv.Bolt11), partMsat)
 	if err != nil {
 		s.logf("mpp meltquote on own invoice of %s refused: %v", mq.Id[:8], err)
 		s.done("meltquote-refused")
